@@ -815,7 +815,10 @@ def step (w : World) (line : String) : World × Out :=
     -- fixed-size with length k * N, otherwise variable-size
     let out := if k = "list" then "ok fixed=false len=4 dfixed=false dlen=4"
       else match E.fixedLen with
-        | some sz => s!"ok fixed=true len={sz * cfg.N} dfixed=true dlen={sz * cfg.N}"
+        | some sz =>
+          -- `usize` arithmetic saturates (fix F10): no buffer can hold such an encoding
+          let n := min (sz * cfg.N) (2 ^ 64 - 1)
+          s!"ok fixed=true len={n} dfixed=true dlen={n}"
         | none => "ok fixed=false len=4 dfixed=false dlen=4"
     if k = "list" ∨ k = "vec" then (w, (out, out)) else badop
   | ["unsszprev", hs, k] =>
